@@ -261,8 +261,17 @@ def gen(rng, tier):
     for dom, msg in ((good, other), (other, good), (good, good)):
         d = {"types": tdgen.types_json({"P": [("a", "string")]}, STD), "primaryType": "EIP712Domain", "domain": dict(dom), "message": dict(msg)}
         dcases.append(Case("td.hash " + hx(tdgen.dumps(d)), tags=("domain-violation", "bare-domain-message", "control"), meta={"token": None}))
+    # LARGE values (strings, bytes, arrays whose JSON text crosses 4 / 8 / 32 / 64 / 128 KiB), library and command line
+    big = []
+    for i, n in enumerate([4090, 8192, 32768, 33000, 65536, 70001] + ([131077, 262151] if tier == "thorough" else [])):
+        t, v = [("string", "".join(rng.choice("abc é\n\"") for _ in range(n))), ("bytes", "0x" + bytes(rng.getrandbits(8) for _ in range(n // 2)).hex()),
+                ("uint8[]", [rng.randrange(256) for _ in range(n // 4)])][i % 3]
+        d = {"types": tdgen.types_json({"P": [("a", "uint8"), ("v", t), ("z", "bool")]}, STD), "primaryType": "P", "domain": dict(good), "message": {"a": 7, "v": v, "z": True}}
+        big.append(Case("td.hash " + hx(tdgen.dumps(d)), tags=("large-value", t), meta={"token": None}))
+    cases += big
     cases += dcases
     from vlib import routes
+    cases += routes.add_routes(big, rng, 10 ** 6, "quick")
     cases += routes.add_routes(dcases, rng, 10 ** 6, "quick")
     cases += routes.add_routes(cases, rng, 80, tier)
     return cases
